@@ -428,6 +428,9 @@ def main():
         res = campaign(bindir, prop, tier, seed, work, cases, 600)
         stats = merge_stats(work, NCPU)
         print("cases", stats["cases"], "nontrivial", stats["nontrivial"], "wall", stats["wall"])
+        cw = {k[11:]: v for k, v in stats["labels"].items() if k.startswith("cases_with.")}
+        keep = [k for k in cw if not k.startswith(("policy.", "forest.", "K"))]
+        print("cases_with:", ", ".join("%s=%d" % (k, cw[k]) for k in sorted(keep)))
         seen = {}
         for w, rc, out, err in res:
             if rc == 0:
